@@ -1,11 +1,13 @@
 #!/bin/sh
+T=$(mktemp /tmp/verif_baseline_off.XXXXXX)
+export T
 # Runs the repository's pinned test suite with the `verif` guard OFF and compares with BASELINE.json.
 export GOFLAGS=-mod=mod GOPROXY=off
-cd ${VERIF_REPO:-/repo} && go test -mod=mod -json -vet=off -count=1 -timeout 25m ./... > /tmp/verif_baseline_off.json 2>/tmp/verif_baseline_off.err
+cd ${VERIF_REPO:-/repo} && go test -mod=mod -json -vet=off -count=1 -timeout 25m ./... > $T 2>$T.err
 python3 - <<'PY'
 import json,sys
 passed=set()
-for l in open('/tmp/verif_baseline_off.json'):
+for l in open(__import__('os').environ['T']):
     try: e=json.loads(l)
     except Exception: continue
     if e.get('Action')=='pass' and e.get('Test'):
@@ -17,5 +19,5 @@ for m in missing: print('MISSING',m)
 sys.exit(1 if missing else 0)
 PY
 rc=$?
-rm -f /tmp/verif_baseline_off.json /tmp/verif_baseline_off.err
+rm -f $T $T.err
 exit $rc
